@@ -50,6 +50,7 @@ rx("m06e", "C06", "struct.go", r"key = string\(rune\(key\[0\]-32\)\) \+ key\[1:\
 rx("m06f", "C06", "slices.go", r"(func sliceLength(?s:.*?))return rv\.Len\(\) == n", "${1}seen := map[any]bool{}\n\t\tfor i := 0; i < rv.Len(); i++ {\n\t\t\tseen[rv.Index(i).Interface()] = true\n\t\t}\n\t\treturn rv.Len() == n", "panic-site", "elements of the parsed slice used as keys of a map[any]: a JSON object among them panics")
 rx("m06g", "C06", "parsers/zjson/parseJson.go", r"closer, ok := r\.\(io\.Closer\)\n\t\tif ok \{", "closer, ok := r.(io.Closer)\n\t\tif !ok {", "panic-site", "Close called on the reader exactly when it is not a Closer: every plain reader panics (passes the whole suite)")
 rx("m06p", "C06", "internals/PathBuilder.go", r"\(len\(v\) == 0 \|\| v\[0\] != '\['\)", "v[0] != '['", "panic-site", "F26 reverted: a path segment indexed without a length test")
+rx("m06q", "C06", "internals/DataProviders.go", r"field := s\.fieldByName\(key\)\n\t// unexported", "field := s.value.FieldByName(key)\n\t// unexported", "panic-site", "F29 reverted: FieldByName on an input struct")
 # ---- C07
 rx("m07a", "C07", "internals/contexts.go", r"\tc2\.Exit = false\n", "", "reinit")
 rx("m07b", "C07", "internals/Issues.go", r"\te\.Err = nil\n\treturn e", "\treturn e", "reinit")
